@@ -339,7 +339,8 @@ def quantity_specs() -> Dict[str, Spec]:
         "Quantity.root": q_root, "Quantity.__add__": q_add(1), "Quantity.__sub__": q_add(-1),
         "Quantity.__neg__": q_neg, "Quantity.__abs__": q_abs, "Quantity.in_unit": q_in_unit,
         "Quantity.unprefixed": q_unprefixed, "conversions.convert": q_in_unit,
-        "Quantity.__eq__": q_cmp, "Quantity.__lt__": q_cmp,
+        "Quantity.__eq__": q_cmp, "Quantity.__lt__": q_cmp, "Quantity.__le__": q_cmp,
+        "Quantity.__gt__": q_cmp, "Quantity.__ge__": q_cmp, "Quantity.__ne__": q_cmp,
         "Level.quantify": level_quantify,
     }
 
